@@ -562,3 +562,36 @@ Example late_cancel_witness :
   [EPut (mk_msg ACK 41 None (PAckP 100 4242 (Some 9))); ERun 41 None;
    EPut (mk_msg READY 41 None (PReadyP (ROk 5) 7))].
 Proof. vm_compute. split; reflexivity. Qed.
+
+(* ---- known finding F-C03-2 (signature C03:raising-accept-callback-leaves-worker-unanswered).
+   The claim "with the handshake linked, every job that _ack accepted (not cancelled before
+   acceptance) gets an answer, so its worker does not wait for ever" is FALSE of the code:
+   a raising accept callback leaves _ack without any answer (hs_raising_callback_starves).
+   The strongest true statement is hs_confirmed (under [cb_returns]). *)
+Definition accepted_job_answered : Prop :=
+  forall pc c h, linked pc c -> delay_ok h = true -> hj_cancel h = false ->
+    fst (syn_result c (hs_req pc true c h)) <> SynStarved.
+
+Definition o1_pc : pcfg := mk_pcfg true true true true true.
+Definition o1_cfg : cfg := mk_cfg None (Some 9) 7 (Some 77) 4242 None None.
+Definition o1_job : hjob := mk_hjob (mk_req TASK 20 None 200 (Returns 0) [] 0 false) false true false.
+
+Lemma o1_linked : linked o1_pc o1_cfg.
+Proof. unfold linked. repeat split. exists 9. reflexivity. Qed.
+
+Theorem accepted_job_answered_refuted : ~ accepted_job_answered.
+Proof.
+  intros H. apply (H o1_pc o1_cfg o1_job o1_linked eq_refl eq_refl).
+  apply hs_raising_callback_starves; try reflexivity. exact o1_linked.
+Qed.
+
+(* the witness as a whole run: the worker announces job 20 and polls its SYN queue until the
+   script runs out; the parent has run the accept callback, recorded owner and acceptance
+   time, armed the timeouts -- and sent nothing *)
+Theorem raising_accept_callback_witness :
+  let wl := w_events o1_cfg (hs_ins o1_pc true o1_cfg [RMsg o1_job; RShutdown]) in
+  wl = [EInq; ENow; EPut (mk_msg ACK 20 None (PAckP 200 77 (Some 9))); ESyn] /\
+  w_exit o1_cfg (hs_ins o1_pc true o1_cfg [RMsg o1_job; RShutdown]) = XStarved /\
+  hs_parent_x o1_pc 20 false true false wl =
+  (mk_ar true false (Some 77) (Some 200) false true, [OTimeoutSet; OCbAccept 77 200; OAcked]).
+Proof. vm_compute. repeat split; reflexivity. Qed.
